@@ -240,8 +240,8 @@ def step (args : List String) : String :=
           let viol := if shipped && safe && isJsonTemplate name && !jv then " ~specviol=json" else ""
           -- `exec` is a function of the data: renderings made at the same time are what they are alone
           let par := if kv rest "par" == some "1" then " par=same" else ""
-          s!"r=ok out={hexOfString out} json={if jv then "valid" else "invalid"} gen={gen}{par} hlp={helpersOut rest}{flowS}{viol}{envViol}"
-        | .err _ => s!"r=err gen={gen} hlp={helpersOut rest}" ++ (if shipped && inv then " ~specviol=render" else "")
+          s!"r=ok out={hexOfString out} json={if jv then "valid" else "invalid"} gen={gen}{par} hlp={helpersOut rest} fts=same{flowS}{viol}{envViol}"
+        | .err _ => s!"r=err gen={gen} hlp={helpersOut rest} fts=same" ++ (if shipped && inv then " ~specviol=render" else "")
         | .unsup w => s!"r=unsup gen={gen} ~why={hexOfString w}"
     | _, _, _, _, _, _ => "bad-op"
   | _ => "bad-op"
